@@ -10,6 +10,20 @@ use crate::security::*;
 //use crate::consensus_ops::*;
 use log;
 
+/// A session counts in one database at a time: selecting a database releases the previous selection
+fn release_selected_db(
+    previous: &Option<String>,
+    dbs_map: &std::collections::HashMap<String, Database>,
+    dbs: &Arc<Databases>,
+) {
+    if let Some(previous_name) = previous {
+        if let Some(previous_db) = dbs_map.get(previous_name) {
+            previous_db.dec_connections();
+            set_connection_counter(previous_db, dbs);
+        }
+    }
+}
+
 fn process_request_obj(request: &Request, dbs: &Arc<Databases>, client: &mut Client) -> Response {
     match request.clone() {
         Request::ReplicateIncrement { db: name, key, inc } => apply_if_auth(&client.auth, &|| {
@@ -255,6 +269,7 @@ fn process_request_obj(request: &Request, dbs: &Arc<Databases>, client: &mut Cli
                             let mut user_name_state = client.selected_db.user_name.write().unwrap();
 
                             if is_valid_user_token(&token, &user_name, db) {
+                                release_selected_db(&*db_name_state, &dbs_map, &dbs);
                                 let _ = std::mem::replace(&mut *db_name_state, Some(name.clone()));
                                 let _ = std::mem::replace(
                                     &mut *user_name_state,
@@ -272,6 +287,7 @@ fn process_request_obj(request: &Request, dbs: &Arc<Databases>, client: &mut Cli
                         None => {
                             if is_valid_token(&token, db) {
                                 let mut db_name_state = client.selected_db.name.write().unwrap();
+                                release_selected_db(&*db_name_state, &dbs_map, &dbs);
                                 let _ = std::mem::replace(&mut *db_name_state, Some(name.clone()));
                                 db.inc_connections(); //Increment the number of connections
                                 set_connection_counter(db, &dbs);
